@@ -117,7 +117,11 @@ def build() -> Check:
         for c_ in ast.iter_child_nodes(n_):
             parents6[id(c_)] = n_
 
+    swallowed6: dict[int, str] = {}
+
     def guarded(node):
+        """walks outwards through the enclosing try statements: the FIRST handler that can take an error of the call decides - it raises the failure
+        flag (guarded), re-raises (keep walking), or swallows the error (r6_C01: a narrower inner handler that logs and goes on to release the waiters)"""
         cur, child = parents6.get(id(node)), node
         while cur is not None:
             if isinstance(cur, ast.Try) and any(child is x or any(child is y for y in ast.walk(x)) for x in cur.body):
@@ -127,6 +131,10 @@ def build() -> Check:
                                       and "_checkpointing_failed" in ast.unparse(x.func.value) for x in ast.walk(h))
                     if catches_all and raises_flag:
                         return True
+                    reraises = bool(h.body) and isinstance(h.body[-1], ast.Raise)
+                    if not raises_flag and not reraises:
+                        swallowed6[id(node)] = f"`except {ast.unparse(h.type) if h.type else ''}` at line {h.lineno} takes the error, does not raise the failure flag and goes on"
+                        return False
             child, cur = cur, parents6.get(id(cur))
         return False
 
@@ -140,9 +148,30 @@ def build() -> Check:
                 svc_calls.append(c)
     ck.floor("consumer_service_calls", len(svc_calls), 2)
     for c in svc_calls:
-        ck.ob("R1.handler-covers-every-service-call", c_cbf, guarded(c),
-              f"`{ast.unparse(c.func)}(...)` can raise (it talks to the service) but is outside the try whose handler raises the failure flag: the consumer "
-              "thread would die silently, no waiter is woken and no later caller is refused", where=f"line {c.lineno}", cell=ast.unparse(c.func))
+        g6 = guarded(c)
+        ck.ob("R1.handler-covers-every-service-call", c_cbf, g6,
+              (f"`{ast.unparse(c.func)}(...)` can raise (it talks to the service) and {swallowed6[id(c)]}: the batch's callers are released as if the call and the "
+               "merge of its whole response had succeeded - what was on the unread pages (terminal records of operations of this batch) stays unknown to this "
+               "invocation, a branch that is run again re-executes a completed step"
+               if id(c) in swallowed6 else
+               f"`{ast.unparse(c.func)}(...)` can raise (it talks to the service) but is outside the try whose handler raises the failure flag: the consumer "
+               "thread would die silently, no waiter is woken and no later caller is refused"), where=f"line {c.lineno}", cell=ast.unparse(c.func))
+
+    # R2 who may write the failure slot: it keeps the FIRST error handed to it (CompletionEvent.set) and the wrapper's verdict is taken from it after the
+    # consumer has ended. Only the consumer knows whether a call is still in flight: a marker written by anybody else ("stopped", written by the thread
+    # that asks the consumer to stop) can get in before the error of the consumer's last call, which is then discarded - the invocation answers PENDING /
+    # SUCCEEDED although a call failed (r6_C18)
+    writers6 = []
+    for mname6, m6 in sc6.methods.items():
+        for c6 in ast.walk(m6.node):
+            if isinstance(c6, ast.Call) and isinstance(c6.func, ast.Attribute) and c6.func.attr == "set" and "_checkpointing_failed" in ast.unparse(c6.func.value):
+                writers6.append((mname6, c6.lineno))
+    ck.floor("failure_slot_writes", len(writers6), 2)
+    foreign6 = [w for w in writers6 if w[0] != cbf.name]
+    ck.ob("R2.failure-slot-written-by-the-consumer-only", c_cbf, not foreign6,
+          f"`_checkpointing_failed.set(...)` in {[f'{a} (line {b})' for a, b in foreign6]}: the slot keeps the first error; written outside the consumer thread it can precede the "
+          "error of the consumer's last call (the batch it had already collected when it was told to stop), which is then lost - the wrapper finds an orderly "
+          "stop and answers PENDING / SUCCEEDED after a failed call")
 
     # ---- R2b producer ---------------------------------------------------------------------------
     cc = create_checkpoint_traces(pm)
